@@ -11,3 +11,7 @@ for id in "$@"; do
   echo "$out" | grep -E "^VIOLATION|signature:|KNOWN-FINDING|MACHINERY" | cut -c1-220 | head -8
 done
 git -C /repo checkout -- .
+# the evidence files were rewritten by the runs above: restore them from clean runs
+for id in "$@"; do
+  (cd /verif && bin/check "$id" "$tier" > /dev/null 2>&1)
+done
